@@ -51,6 +51,7 @@ type attemptRec struct {
 	SID       uint64
 	Attempt   uint64
 	Height    int64 // creation height
+	Expiry    int64 // creation height + signing period in force at creation
 	Processed bool  // expiry processed (interim data must be gone)
 }
 
@@ -198,6 +199,9 @@ func (s *spec) Enabled(w *engine.World, ctx sdk.Context, mm engine.Model, depth 
 	if has(ev, "feechg") {
 		out = append(out, "feechg")
 	}
+	if has(ev, "period") && s.cfg.SigningPeriod > 1 {
+		out = append(out, "period")
+	}
 	if has(ev, "maxde") && s.cfg.MaxDESize > 1 {
 		out = append(out, "maxde")
 	}
@@ -283,10 +287,11 @@ func (s *spec) adoptAttempt(w *engine.World, ctx sdk.Context, m *model, sg *mSig
 	sg.Height = ctx.BlockHeight()
 	sg.Submitted = map[int]bool{}
 	sg.Pending = false
-	if sa.ExpiredHeight != uint64(ctx.BlockHeight())+s.cfg.SigningPeriod {
-		st.Violate("C10/attempt-expiry-height", "attempt created at %d expires at %d, period %d", ctx.BlockHeight(), sa.ExpiredHeight, s.cfg.SigningPeriod)
+	period := w.App.TSSKeeper.GetParams(ctx).SigningPeriod // parameter in force (configuration, given)
+	if sa.ExpiredHeight != uint64(ctx.BlockHeight())+period {
+		st.Violate("C10/attempt-expiry-height", "attempt created at %d expires at %d, period %d", ctx.BlockHeight(), sa.ExpiredHeight, period)
 	}
-	m.Attempts = append(m.Attempts, attemptRec{SID: sg.ID, Attempt: sg.Attempt, Height: sg.Height})
+	m.Attempts = append(m.Attempts, attemptRec{SID: sg.ID, Attempt: sg.Attempt, Height: sg.Height, Expiry: sg.Height + int64(period)})
 	return true
 }
 
@@ -309,6 +314,16 @@ func (s *spec) Step(w *engine.World, ctx sdk.Context, mm engine.Model, ev string
 	reqAddr := requester().Address
 	fee := bk.GetParams(ctx).FeePerSigner.AmountOf("uband").Int64() // parameter value in force (configuration, given)
 	switch parts[0] {
+	case "period":
+		// governance changes signing_period while attempts are in flight
+		tp := tk.GetParams(ctx)
+		if tp.SigningPeriod == s.cfg.SigningPeriod {
+			tp.SigningPeriod = 1
+		} else {
+			tp.SigningPeriod = s.cfg.SigningPeriod
+		}
+		res := w.Tx(ctx, 0, tsstypes.NewMsgUpdateParams(tssh.Authority.String(), tp))
+		st.Outcome = "period:" + res.ErrName()
 	case "maxde":
 		// governance lowers / restores MaxDESize while queues are filled
 		tp := tk.GetParams(ctx)
@@ -520,30 +535,47 @@ func (s *spec) Step(w *engine.World, ctx sdk.Context, mm engine.Model, ev string
 		}
 		preActive := append([]bool(nil), m.Active...)
 		feeAtStart := fee
-		// 2. attempts whose period has passed (creation order)
+		// 2. (after the block, below) attempts whose period has passed, in creation order
 		var retry []*mSigning
-		for i := range m.Attempts {
-			a := &m.Attempts[i]
-			if a.Processed {
-				continue
-			}
-			if a.Height+int64(s.cfg.SigningPeriod) > h {
-				break
-			}
-			a.Processed = true
-			var sg *mSigning
-			for _, x := range m.Sigs {
-				if x.ID == a.SID {
-					sg = x
+		processExpiries := func(post sdk.Context) {
+			blocked := false
+			for i := range m.Attempts {
+				a := &m.Attempts[i]
+				if a.Processed {
+					continue
 				}
-			}
-			if sg.Status == "W" && sg.Attempt == a.Attempt && len(sg.Submitted) != len(sg.Assigned) {
-				for _, mi := range sg.Assigned {
-					if !sg.Submitted[mi] {
-						m.Active[mi] = false // penalised
+				if a.Expiry > h {
+					// never timed out before its own period has passed
+					if _, err := tk.GetSigningAttempt(post, tss.SigningID(a.SID), a.Attempt); err != nil {
+						st.Violate("C10/attempt-removed-before-its-period-passed", "signing %d attempt %d (expires at %d) is gone at the end of block %d", a.SID, a.Attempt, a.Expiry, h)
+					}
+					blocked = true
+					continue
+				}
+				if blocked {
+					// its own period has passed but an earlier attempt (created under a longer, since reduced, period) has not
+					// expired yet: the statement fixes the moment only "while that parameter is unchanged"; follow the chain,
+					// it must be processed at the latest when everything before it has expired
+					if _, err := tk.GetSigningAttempt(post, tss.SigningID(a.SID), a.Attempt); err == nil {
+						st.Saw("expiry-deferred-behind-earlier-attempt")
+						continue
 					}
 				}
-				retry = append(retry, sg)
+				a.Processed = true
+				var sg *mSigning
+				for _, x := range m.Sigs {
+					if x.ID == a.SID {
+						sg = x
+					}
+				}
+				if sg.Status == "W" && sg.Attempt == a.Attempt && len(sg.Submitted) != len(sg.Assigned) {
+					for _, mi := range sg.Assigned {
+						if !sg.Submitted[mi] {
+							m.Active[mi] = false // penalised
+						}
+					}
+					retry = append(retry, sg)
+				}
 			}
 		}
 		type exp struct {
@@ -553,9 +585,6 @@ func (s *spec) Step(w *engine.World, ctx sdk.Context, mm engine.Model, ev string
 			attempt uint64
 		}
 		var exps []exp
-		for _, sg := range retry {
-			exps = append(exps, exp{sg: sg, attempt: sg.Attempt})
-		}
 		next, br := w.Block(ctx, 1, 3*time.Second)
 		if br.Halt != "" {
 			st.Violate("block-halt", "%s", br.Halt)
@@ -565,6 +594,10 @@ func (s *spec) Step(w *engine.World, ctx sdk.Context, mm engine.Model, ev string
 		// read back from the chain (given), so step through them now on the post-block state, which
 		// still carries height h for attempt creation (attempts are created in the EndBlocker of h).
 		postEnd := next.WithBlockHeight(h)
+		processExpiries(postEnd)
+		for _, sg := range retry {
+			exps = append(exps, exp{sg: sg, attempt: sg.Attempt})
+		}
 		// signings created by the oracle end-blocker (it runs before the tss end-blocker): eligibility and
 		// nonce queues as they were before this block's time-outs
 		for _, remaining := range m.Due {
